@@ -1,4 +1,5 @@
-CONSTANT Present = {"a", "b"}
+CONSTANT PresentAt <- MCPresentAt
+CONSTANT StaleReuse = FALSE
 CONSTANT SharedHandle = FALSE
 CONSTANT MaxLen = 4
 CONSTANT MaxT = 3
@@ -7,5 +8,6 @@ INIT Init
 NEXT Next
 INVARIANT ScheduleIndependent
 INVARIANT SlotsRight
+INVARIANT HandleFresh
 INVARIANT Returns
 CHECK_DEADLOCK FALSE
